@@ -14,7 +14,7 @@ SPEC = streamcheck.StreamSpec(
                         p_gdur=0.0, p_setreg=0.02, p_rel=0.5),
     n_quick=1200, n_thorough=40000,
     nontrivial=nontrivial,
-    pysem=dict(groups=[], effects=True),
+    pysem=dict(groups=['facade'], effects=True),
     rule='random build programs over all 26 operation classes and all relation types WITHOUT intermediate observations '
          '(histories are C03), with explicit copies, nestings and unrollings followed by further mutations of either side; '
          'at every copy: operation sequence (kind, qubits, channels, duration strategy, tag, extra fields), repetition '
